@@ -172,12 +172,14 @@ def pairSpec (m : Mode) (op : Op) (a b : Atom) : Except Err Bool :=
 /-- the set of outcomes permitted for "∃ pair" semantics with errors (XPath 3.1 §3.7.2 last
 paragraph and §2.3.4): `true` if some pair is true, any error raised by some pair, `false` only if
 every pair is false.  `none` = some pair is outside the supported fragment. -/
+def isUnsupportedR : Except Err Bool → Bool | .error .unsupported => true | _ => false
+def isTrueR : Except Err Bool → Bool | .ok true => true | _ => false
+def isFalseR : Except Err Bool → Bool | .ok false => true | _ => false
+def errOutR : Except Err Bool → Option Out | .error e => some (.err e) | _ => none
+
 def allowedOfPairs (rs : List (Except Err Bool)) : Option (List Out) :=
-  if rs.any (fun r => match r with | .error .unsupported => true | _ => false) then none else
-  let errs := (rs.filterMap fun r => match r with | .error e => some (Out.err e) | _ => none).eraseDups
-  let anyT := rs.any (fun r => match r with | .ok true => true | _ => false)
-  let allF := rs.all (fun r => match r with | .ok false => true | _ => false)
-  some ((if anyT then [.t] else []) ++ (if allF then [.f] else []) ++ errs)
+  if rs.any isUnsupportedR then none else
+  some ((if rs.any isTrueR then [.t] else []) ++ (if rs.all isFalseR then [.f] else []) ++ rs.filterMap errOutR)
 
 /-! ### fn:boolean (F&O 3.1 §7.3.1) -/
 
